@@ -1,8 +1,9 @@
 #!/usr/bin/env python3
-"""apply a seeded patch to /repo, run the given checks, undo.  usage: mutest.py <patch.diff> C04 [C14 ...]"""
+"""apply a seeded patch to /repo, run the given checks, undo.  usage: mutest.py <patch.diff> C04 [C14 ...]  (env NOPROVE=1 TIER=quick)"""
 import subprocess, sys, os, time
 patch = os.path.abspath(sys.argv[1]); props = sys.argv[2:]
 tier = os.environ.get("TIER", "quick")
+extra = ["--no-prove"] if os.environ.get("NOPROVE") else []
 def sh(*a, **k): return subprocess.run(a, capture_output=True, text=True, **k)
 st = sh("git", "-C", "/repo", "status", "--porcelain").stdout.strip()
 assert not st, "repo not clean: " + st
@@ -11,11 +12,11 @@ assert r.returncode == 0, r.stderr
 try:
     for p in props:
         t = time.time()
-        r = sh("/verif/check", p, "--tier", tier, cwd="/verif")
+        r = sh("/verif/check", p, "--tier", tier, *extra, cwd="/verif")
         lines = [l for l in r.stdout.splitlines() if l.startswith(("VIOLATION", "OK", "KNOWN"))]
-        print("%s rc=%d %.0fs %s" % (p, r.returncode, time.time() - t, " | ".join(lines)[:300]))
+        print("%s rc=%d %.0fs %s" % (p, r.returncode, time.time() - t, " | ".join(lines)[:300]), flush=True)
         if r.returncode == 2: print(r.stderr[-800:])
 finally:
     sh("git", "-C", "/repo", "checkout", "--", ".")
-    # Generated.lean may have been regenerated from the mutated source: restore it
-    sh("/venv/bin/python", "/verif/gen/extract.py")
+    if not extra:
+        sh("/venv/bin/python", "/verif/gen/extract.py")
